@@ -24,7 +24,7 @@ typedef struct {
 
 /* common header */
 typedef struct {
-    unsigned short ref;
+    unsigned int ref;
     short type;                 /* FP_* is used */
     struct object_s *owner;
     struct array_s *args;
